@@ -2531,7 +2531,14 @@ def _generate_action_event_from_actionable_element(
                 },
             )
             _push_internal_event(state, colang_error_event)
-            _abort_flow(state, flow_state, head.matching_scores)
+            # Like for any other runtime error, an activated flow that fails before it was started
+            # is not restarted since it would fail again right away (infinite loop)
+            _abort_flow(
+                state,
+                flow_state,
+                head.matching_scores,
+                restart_flow=flow_state.status == FlowStatus.STARTED,
+            )
             return
         if isinstance(event, ActionEvent):
             event.action_uid = umim_event["action_uid"]
